@@ -12,9 +12,9 @@ INFO = {
                   'rtamt.semantics.stl.dense_time.online.intersection.intersection',
                   'offline dense-time evaluate() on the whole signal (the property\'s own oracle) and rho_ct'],
     'bounds': {'quick': 'every dense online operator, n=3 samples per signal (2+2 binary), EVERY split into consecutive update() batches (incl. per-variable '
-                        'unaligned splits for binary operators), time-stamps and values symbolic; bounds (0,1)(1,2); depth-2 nestings on n=3; wide windows ([0,3],[1,4],[2,3]) over 5 samples on concrete regular and irregular time grids (values symbolic), 3 chunkings',
+                        'unaligned splits for binary operators), time-stamps and values symbolic; bounds (0,1)(1,2); depth-2 nestings on n=3; update() calls that bring nothing for a variable (explicit empty batch, or one variable of a binary operand running ahead); wide windows ([0,3],[1,4],[2,3]) over 5 samples on concrete regular and irregular time grids (values symbolic), 3 chunkings',
                'thorough': 'n=4 (3+2, 3+3 binary), all 2^(n-1) chunkings; more bounds; pastified bounded-future specifications'},
-    'outside': 'more than 4 samples per variable; batches that repeat a time-stamp',
+    'outside': 'more than 4 samples per variable with symbolic time-stamps (6 on concrete grids); batches that repeat a time-stamp',
     'assumptions': ['time-stamps strictly increasing, first sample at time 0 (free start in thorough)', 'values finite reals',
                     'the concatenated output is read as a right-continuous step function on [first output time, last output time]'],
     'explanation': 'schedules (chunkings) are enumerated completely for the stated n; for each, z3 decides for all time-stamps, values and instants tau that the '
@@ -208,6 +208,37 @@ def obligations(tier, rng):
         for sched in ([sch[0], sch[-1]] if quick else [sch[0], sch[-1], sch[len(sch) // 2]]):
             out.append(ob('C05', 'chunk', 'wide/%s/grid=0,1,2,3/%s' % (text(f), _sname(sched)), f=f, ns=[4, 4], sched=sched, oracle='offline', grid=g,
                           max_paths=40000, wall=900))
+    # empty batches: an update() that brings nothing new for a variable (explicitly, or because the other variable of a binary operand
+    # runs ahead) must not disturb the pending state of the operators above it
+    def with_gaps(parts):
+        res = []
+        for pos in range(1, len(parts)):
+            res.append([list(q) for q in parts[:pos]] + [[]] + [list(q) for q in parts[pos:]])
+        return res
+    emp = [(k, X, a, b) for k in UNT for a, b in [(0, 2), (1, 2)]] + [('once', X), ('historically', X), ('not', ('once_t', X, 0, 1)),
+                                                                    ('since_t', X, ('not', X), 0, 1), ('historically_t', ('abs', X), 0, 2)]
+    for f in emp:
+        g = [0, 1, 2, 3]
+        for parts in [[[0, 1], [2, 3]], [[0], [1], [2, 3]], [[0, 1, 2], [3]]]:
+            for sch in with_gaps(parts)[:(1 if quick and f[0] not in UNT else 3)]:
+                out.append(ob('C05', 'chunk', 'empty/%s/grid=0,1,2,3/%s' % (text(f), _sname([sch])), f=f, ns=[4], sched=[sch], oracle='offline', grid=g,
+                              max_paths=40000, wall=900))
+        if not quick:
+            for parts in [[[0], [1, 2]], [[0, 1], [2]]]:
+                for sch in with_gaps(parts):
+                    out.append(ob('C05', 'chunk', 'empty/%s/n=3/%s' % (text(f), _sname([sch])), f=f, ns=[3], sched=[sch], oracle='offline',
+                                  max_paths=40000, wall=900))
+    AB = ('and', ('geq', X, ('const', 0.0)), ('geq', Y, ('const', 0.0)))
+    ahead = [('historically_t', AB, 0, 2), ('once_t', AB, 1, 2), ('once_t', ('sub', X, Y), 0, 2), ('historically', AB)] + ([] if quick else [('since_t', AB, ('not', Y), 0, 1)])
+    ahead_p = [('always_t', AB, 0, 2), ('eventually_t', ('sub', X, Y), 1, 2)]
+    scheds = [[[[0, 1, 2], [3], []], [[0], [1, 2], [3]]],          # x ahead of y
+              [[[0], [1], [2, 3]], [[0, 1, 2], [], [3]]],          # y ahead of x
+              [[[0, 1], [], [2, 3]], [[0], [1, 2, 3], []]]]
+    for fam, fs, pst in (('ahead', ahead, False), ('aheadp', ahead_p, True)):
+        for f in fs:
+            for sc in (scheds[:2] if quick else scheds):
+                out.append(ob('C05', 'chunk', '%s/%s/grid=0,1,2,3/%s' % (fam, text(f), _sname(sc)), f=f, ns=[4, 4], sched=sc, pastify=pst, oracle='offline',
+                              grid=[0, 1, 2, 3], max_paths=40000, wall=900))
     res_ = out
     from .. import core as _core
     res_ = res_ + _core.make_twins(res_, [('F1/once[0,1](x)/n=3/0;1;2', 'ctwindow'), ('F1/(x) and (y)/n=[2, 2]/0,1|0,1', 'ctminmax'), ('F1/historically(x)/n=3/0,1;2', 'ctminmax')]) + _core.make_forkmode(res_, [])
